@@ -3,4 +3,6 @@ CONSTANTS MaxN = 8 MaxK = 5
 INVARIANT EqRef
 INVARIANT ChunkLazy
 INVARIANT CountDefaults
+INVARIANT CountLinear
+INVARIANT CountNeverEndsByItself
 CHECK_DEADLOCK FALSE
